@@ -114,6 +114,8 @@ func BuildImage(trace []FOp, img CrashImage, killOnly bool) map[string][]byte {
 			}
 		}
 		switch {
+		case img.Kind == "none-after-revert":
+			// only durable content
 		case killOnly || img.Kind == "all" || img.Kind == "torn" || img.Kind == "cut":
 			for _, w := range f.pending {
 				apply(w, w.off, w.off+int64(len(w.data)))
